@@ -1011,3 +1011,88 @@ Proof.
   split. { unfold hsubs. rewrite OLD3 by auto. auto. }
   unfold s'. simpl. rewrite KU, US2, US1. auto.
 Qed.
+
+Lemma chain_empty_above : forall s C0 X l, SGood s C0 -> (forall y, In y X -> In y C0) -> (k_level s < Z.of_nat l)%Z -> chain s X l = [].
+Proof.
+  intros. unfold chain. destruct (filter (at_level s l) X) eqn:F; auto. exfalso.
+  assert (In n (filter (at_level s l) X)) by (rewrite F; left; auto). apply filter_In in H2. destruct H2 as [I1 I2].
+  destruct (sg_node _ _ H n (H0 n I1)) as [m [ky [M1 [_ [_ [M4 _]]]]]]. unfold at_level, nlvl in I2. rewrite M1 in I2. apply Nat.leb_le in I2. lia.
+Qed.
+
+Lemma kstep_put : forall rc s C0 k x orc, SGood s C0 -> kstep_ok rc s C0 (Put k x) orc.
+Proof.
+  intros rc s C0 k x orc G. destruct rc as [[e1 e2] e3]. unfold kstep_ok, k_step, a_step. simpl. rewrite (sg_alive _ _ G). simpl.
+  unfold k_put, a_put. destruct (search_top s C0 true k G) as [R [R1 R2]]. rewrite R1. cbn [bind].
+  destruct (find_live_sent s C0 k G) as [F1 F2].
+  destruct R2 as [[_ [y [Y0 [Y1 Y2]]]]|[[c [u [T1 [T2 [T3 T4]]]]] AB]].
+  - (* replacement *)
+    destruct R as [[m c] u]. simpl in Y0. subst m. cbn beta iota.
+    destruct (sg_node _ _ G y Y1) as [n [ky [N1 [N2 [N3 [N4 N5]]]]]]. rewrite N1. cbn [bind]. rewrite N2.
+    assert (KY : ky = k) by (rewrite <- Y2; symmetry; eapply nkey_some; eauto). subst ky.
+    assert (LT : y < length (k_nodes s)) by (eapply dnode_lt; eauto).
+    unfold k_notify. rewrite dnode_put_node by auto. replace (Nat.eqb y HEADER) with false by (symmetry; apply Nat.eqb_neq; auto).
+    destruct (sg_hdr _ _ G) as [h [H1 _]]. rewrite H1. cbn [bind].
+    change (r_ents (kabs s C0)) with (map (sent s) C0). rewrite (F1 y Y1 Y2). rewrite (sent_node _ _ _ _ N1 N2). simpl.
+    eexists _, C0, ONone, ONone, _. split; [reflexivity|]. split; [|split; [reflexivity|]].
+    + f_equal. f_equal.
+      * symmetry. match goal with |- _ = set_ents _ (upd_entry _ _ ?f) => rewrite (kabs_put_node s C0 y n _ f G Y1 N1) end.
+        { rewrite (sent_node _ _ _ _ N1 N2). reflexivity. }
+        { simpl. discriminate. }
+        { rewrite sent_put_node by auto. rewrite Nat.eqb_refl. simpl. reflexivity. }
+      * unfold r_notify. simpl. unfold hsubs. rewrite H1. reflexivity.
+    + left. eapply sgood_put_node; eauto.
+  - (* insertion *)
+    subst R. cbn beta iota.
+    change (find_live (r_ents (kabs s C0)) k) with (find_live (map (sent s) C0) k). rewrite (F2 (AB eq_refl)).
+    destruct T2 as [lo [hi [E [LO [_ HI0]]]]]. rewrite chain_level0 in HI0.
+    assert (HI : forall y, In y hi -> key_ltb k (nkey s y) = true).
+    { intros y Hy. apply key_ltb_total; [apply HI0; auto | apply key_eqb_neq; apply (AB eq_refl); rewrite E; apply in_or_app; auto]. }
+    assert (LOC : forall y, In y lo -> In y C0) by (intros; rewrite E; apply in_or_app; auto).
+    set (nl := new_level orc). assert (Hnl : nl <= LEVEL_MAX) by apply new_level_le.
+    (* the update vector, whatever the branch *)
+    assert (UVB : forall l, (Z.of_nat l <= k_level s)%Z -> uv_get u l = Some (last (chain s lo l) HEADER)).
+    { intros l Hl. destruct (T3 l Hl) as [xx [X1 X2]]. rewrite X1. f_equal.
+      rewrite (levelfact_canon s C0 k lo hi l xx E LO HI0 X2). apply last_cons'. }
+    assert (TAIL : forall s1 u1,
+      k_nodes s1 = k_nodes s -> k_arrs s1 = k_arrs s -> k_length s1 = k_length s -> k_iters s1 = k_iters s ->
+      k_used s1 = k_used s -> k_alive s1 = k_alive s -> k_level s1 = Z.max (k_level s) (Z.of_nat nl) ->
+      (forall l, l <= nl -> uv_get u1 l = Some (last (chain s lo l) HEADER)) ->
+      exists s' C0' x0 x' ns,
+        (do ' (s'0, ns0) <- (let '(s2, id) := node_new s1 (Z.of_nat nl) (Some k) x in
+           do n <- dnode s2 id; do ns1 <- k_notify s2 n EV_INSERTED k 0%N x;
+           do s3 <- link_levels s2 u1 id (seq 0 (S nl)); Ok (set_length s3 (wrap64 (k_length s3 + 1)), ns1)); Ok (s'0, ONone, ns0)) = Ok (s', x0, ns) /\
+        (let '(r', ns0) :=
+           ({| r_ents := ins_before (fun y => skip_before k (re_key y))
+                           {| re_id := r_next (kabs s C0); re_key := k; re_val := x; re_removed := false; re_subs := [] |} (r_ents (kabs s C0));
+               r_next := S (r_next (kabs s C0)); r_subs := r_subs (kabs s C0); r_iters := r_iters (kabs s C0);
+               r_used := r_used (kabs s C0); r_alive := r_alive (kabs s C0) |},
+            r_notify (kabs s C0) {| re_id := r_next (kabs s C0); re_key := k; re_val := x; re_removed := false; re_subs := [] |} EV_INSERTED k 0%N x) in
+         (r', ONone, ns0)) = (kabs s' C0', x', ns) /\ x0 = out_wrap x' /\ (SGood s' C0' \/ k_alive s' = false)).
+    { intros s1 u1 N1 A1 LEN1 IT1 US1 AL1 LV1 UV1.
+      destruct (put_new_tail s C0 s1 u1 k x nl lo hi G E LO HI Hnl N1 A1 LEN1 IT1 US1 AL1 LV1 UV1)
+        as [s' [ns [P1 [P2 [P3 [P4 [P5 [P6 [P7 P8]]]]]]]]].
+      rewrite P1. cbn [bind].
+      exists s', (lo ++ length (k_nodes s) :: hi), ONone, ONone, ns. split; [reflexivity|]. split; [|split; [reflexivity|left; auto]].
+      f_equal. f_equal.
+      - unfold kabs. simpl. f_equal.
+        + rewrite E. rewrite !map_app. simpl. rewrite ins_before_app.
+          * f_equal. symmetry. apply map_ext_in. intros y Hy. apply P4. rewrite E. apply in_or_app; auto.
+            f_equal. rewrite P5. reflexivity. symmetry. apply map_ext_in. intros y Hy. apply P4. rewrite E. apply in_or_app; auto.
+          * intros e He. apply in_map_iff in He. destruct He as [y [Q1 Q2]]. subst e. rewrite sent_key. unfold skip_before. rewrite LO; auto.
+          * intros e He. apply in_map_iff in He. destruct He as [y [Q1 Q2]]. subst e. rewrite sent_key. unfold skip_before. rewrite HI0; auto.
+        + rewrite P6. destruct (sg_hdr _ _ G) as [h [H1 _]]. apply dnode_lt in H1. unfold HEADER in H1. lia.
+        + auto.
+        + auto.
+        + first [symmetry; apply (sg_alive _ _ P2) | rewrite (sg_alive _ _ P2); rewrite ?(sg_alive _ _ G); reflexivity].
+      - rewrite P3. unfold r_notify. simpl. reflexivity. }
+    destruct (Z.ltb (k_level s) (Z.of_nat nl)) eqn:LT.
+    + apply Z.ltb_lt in LT. apply TAIL; auto.
+      * simpl. lia.
+      * intros l Hl. generalize (sg_level _ _ G). intro LVB.
+        destruct (Z_le_dec (Z.of_nat l) (k_level s)).
+        { rewrite uv_get_app_hdr_out. apply UVB; auto. left. lia. }
+        { rewrite uv_get_app_hdr_in by lia. rewrite (chain_empty_above s C0 lo l G LOC) by lia. reflexivity. }
+    + apply Z.ltb_ge in LT. apply TAIL; auto.
+      * lia.
+      * intros l Hl. apply UVB. lia.
+Qed.
